@@ -666,6 +666,11 @@ func rootOf(v ssa.Value) ssa.Value {
 				v = x.Call.Args[0]
 				continue
 			}
+			// ast.WrapXxx(e): the node wrapping e has e's positions
+			if f := x.Call.StaticCallee(); f != nil && f.Pkg != nil && f.Pkg.Pkg.Path() == pAst && strings.HasPrefix(f.Name(), "Wrap") && f.Signature.Recv() == nil && len(x.Call.Args) == 1 {
+				v = x.Call.Args[0]
+				continue
+			}
 			return v
 		default:
 			return v
